@@ -12,7 +12,7 @@ LEVEL = "proof"
 READY = True
 TARGETS = ["theories/Props/C19.vo", "theories/Extract/ExStreamOp.vo"]
 THEOREMS = ["C19_exactly_once_in_order", "C19_counts_reported", "C19_values_accounted",
-            "C19_ledger_balanced", "C19_ledger_is_fold_of_trace", "C19_reader_values_accounted", "C19_return_code_roundtrip",
+            "C19_ledger_balanced", "C19_completed_run_balanced", "C19_ledger_is_fold_of_trace", "C19_reader_values_accounted", "C19_return_code_roundtrip",
             "C19_decode_total_on_host_codes"]
 CORPUS = os.path.join(vf.ROOT, "corpus", "C19.txt")
 
